@@ -155,6 +155,22 @@ class Repo(object):
                     raise AnalysisError("cannot parse %s: %s" % (fn, ex))
         self._strategies = None
         self.consulted = set()
+        self.renamed = {}
+        self._alpha_normalise()
+
+    def _alpha_normalise(self):
+        """Map renamed local names back to the names of the reference snapshot (see sa/alpha.py)."""
+        if os.environ.get("VERIF_NO_ALPHA"):
+            return
+        from . import alpha
+        refdir = os.path.join(VERIF, "reference", PKG)
+        ref = alpha.load_reference(refdir)
+        for name, mod in self.modules.items():
+            if name in ref:
+                applied = alpha.normalise_module(mod.tree, ref[name])
+                if applied:
+                    self.renamed[name] = applied
+                    set_parents(mod.tree)
 
     # -- lookup ------------------------------------------------------------
     def mod(self, name):
@@ -493,6 +509,8 @@ def finish(chk, t0, seed, error=None, extra_cov=None, out=sys.stdout, write=True
         "not_decided": chk.undecided,
         "modules_consulted": sorted(chk.repo.consulted) if chk.repo else [],
         "source_digest": chk.repo.digest() if chk.repo else "",
+        "locals_renamed_to_reference": {m: {q: d for q, d in v.items()} for m, v in chk.repo.renamed.items()
+                                        if m in chk.repo.consulted} if chk.repo else {},
         "known_findings_matched": [o.key for o in known_hit],
         "exhaustive": False,
         "trusted_base": ["CPython ast", "PEP 479 / data-model semantics of the interpreter",
